@@ -119,12 +119,14 @@ def rewrite_concat_ops(op, arch):
     if not op.run_on_npu or not op.type.is_concat_op():
         return
 
+    # A fused activation function becomes an operator of its own after the concatenation; the concatenation then
+    # writes an intermediate tensor, which is the OFM that the slice writers below have to produce
+    unfuse_activation_function(op)
+
     axis_4D = 0
     ofm = op.ofm
     ofm.ops = []
     offset = 0
-
-    unfuse_activation_function(op)
 
     if op.type == Op.Pack:
         # Pack is also referred to as Stack
